@@ -1,0 +1,82 @@
+//! Verification hooks (compiled only with `--cfg sos_verif`).
+//!
+//! * a process-global clock override consulted by `UtcDateTime::default()`
+//! * named crash probes that abort the process when armed
+//! * a byte tap for traffic that is otherwise not observable
+use std::collections::HashMap;
+use std::sync::Mutex;
+use time::OffsetDateTime;
+
+static CLOCK: Mutex<Option<(i128, i128)>> = Mutex::new(None);
+static ARMED: Mutex<Option<(String, u64)>> = Mutex::new(None);
+static HITS: Mutex<Option<HashMap<&'static str, u64>>> = Mutex::new(None);
+static TRACE: Mutex<Option<Vec<&'static str>>> = Mutex::new(None);
+static TAPS: Mutex<Vec<(&'static str, Vec<u8>)>> = Mutex::new(Vec::new());
+
+/// Set (or clear) the clock override: `(unix nanos, step nanos)`;
+/// every read returns the current value and advances it by step.
+pub fn set_clock(value: Option<(i128, i128)>) {
+    *CLOCK.lock().unwrap() = value;
+}
+
+/// Current clock override state.
+pub fn get_clock() -> Option<(i128, i128)> {
+    *CLOCK.lock().unwrap()
+}
+
+/// Read the overridden clock when one is installed.
+pub fn clock_now() -> Option<OffsetDateTime> {
+    let mut guard = CLOCK.lock().unwrap();
+    if let Some((now, step)) = guard.as_mut() {
+        let value = OffsetDateTime::from_unix_timestamp_nanos(*now).ok();
+        *now += *step;
+        value
+    } else {
+        None
+    }
+}
+
+/// Arm a crash probe: abort on the nth (1-based) hit of `name`.
+pub fn arm_crash(name: &str, nth: u64) {
+    *HITS.lock().unwrap() = Some(HashMap::new());
+    *ARMED.lock().unwrap() = Some((name.to_owned(), nth));
+}
+
+/// Start recording the sequence of probes that are passed.
+pub fn start_trace() {
+    *TRACE.lock().unwrap() = Some(Vec::new());
+}
+
+/// Stop recording and return the probes passed since `start_trace`.
+pub fn take_trace() -> Vec<&'static str> {
+    TRACE.lock().unwrap().take().unwrap_or_default()
+}
+
+/// Named step boundary; aborts the process when armed for this hit.
+pub fn crash_point(name: &'static str) {
+    if let Some(trace) = TRACE.lock().unwrap().as_mut() {
+        trace.push(name);
+    }
+    let armed = ARMED.lock().unwrap();
+    if let Some((armed_name, nth)) = armed.as_ref() {
+        if armed_name == name {
+            let mut hits = HITS.lock().unwrap();
+            let hits = hits.get_or_insert_with(HashMap::new);
+            let count = hits.entry(name).or_insert(0);
+            *count += 1;
+            if *count == *nth {
+                std::process::abort();
+            }
+        }
+    }
+}
+
+/// Record bytes observed on a named channel.
+pub fn tap(channel: &'static str, bytes: &[u8]) {
+    TAPS.lock().unwrap().push((channel, bytes.to_vec()));
+}
+
+/// Drain all tapped buffers.
+pub fn drain_taps() -> Vec<(&'static str, Vec<u8>)> {
+    std::mem::take(&mut *TAPS.lock().unwrap())
+}
